@@ -529,21 +529,36 @@ def plates(spec):
             scopes.append(("all", inner))
         for (scope, tset), form, rng in itertools.product(scopes, ("var", "star"), PLATE_RANGES):
             idxs = list(range(*[int(v) for v in rng.split(":")]))
-            s = copy.deepcopy(spec)
-            objs = walk(s)[0]
-            el, pl, ix = objs[n]
-            if idxs:
-                conc = {i: (f"{i}.{idxs[0]}" if form == "var" else f"{i}{idxs[0]}") for i in tset}
-                _rename_refs(s, conc)
-            for sub, _, _ in walk([el])[0]:
-                if sub["id"] in tset:
-                    sub["id"] = sub["id"] + (".${i}" if form == "var" else "*")
-            plate = {"type": "torchtree.Plate" if form == "var" else "Plate", "range": rng,
-                     "object": el}
-            if form == "var":
-                plate["var"] = "i"
-            pl[ix] = plate
-            yield f"plate_{form}_{scope}_{rng}@{n}", s
+            variants = ["plain"]
+            if form == "var" and idxs and idxs[0] >= 1:
+                # references written as a range whose first members do not exist (`x.{0:3}' when only
+                # x.1 and x.2 are defined): ill-formed, must be rejected
+                variants.append("rangeref")
+            if form == "var" and idxs:
+                variants.append("rangeempty")  # `x.{0:0}': denotes no object at all, must be rejected
+            for variant in variants:
+                s = copy.deepcopy(spec)
+                objs = walk(s)[0]
+                el, pl, ix = objs[n]
+                if idxs:
+                    conc = {i: (f"{i}.{idxs[0]}" if form == "var" else f"{i}{idxs[0]}") for i in tset}
+                    if variant != "plain":
+                        conc = {i: (f"{i}.{{0:{idxs[-1] + 1}}}" if variant == "rangeref" else f"{i}.{{0:0}}")
+                                for i in tset}
+                        before = copy.deepcopy(s)
+                    _rename_refs(s, conc)
+                    if variant != "plain" and s == before:
+                        continue  # no reference to the plate's objects in this document
+                for sub, _, _ in walk([el])[0]:
+                    if sub["id"] in tset:
+                        sub["id"] = sub["id"] + (".${i}" if form == "var" else "*")
+                plate = {"type": "torchtree.Plate" if form == "var" else "Plate", "range": rng,
+                         "object": el}
+                if form == "var":
+                    plate["var"] = "i"
+                pl[ix] = plate
+                yield (f"plate_{form}_{scope}_{rng}@{n}" if variant == "plain"
+                       else f"plate_{variant}_{scope}_{rng}@{n}"), s
 
 
 # -- workers -----------------------------------------------------------------------
